@@ -176,6 +176,124 @@ Arguments path1 {A}. Arguments path2 {A}. Arguments pathn {A}. Arguments collect
 Arguments dispatch {A}. Arguments collect {A}. Arguments collect_general {A}.
 Arguments get_def {A}. Arguments collect_def {A}. Arguments df_collect {A}.
 
+(* ---- the DataFrame as an OBJECT WITH STATE (dataframe.py:88-94 __init__, 136-144 append, 184-189
+   materialize, 200-240 collect, 242-243 __getitem__, 418-421 rowcount, 439-441 __len__) ----
+   [self._rows] is whatever the caller handed over ([rows or []]): a list, a re-iterable non-list
+   (tuple, deque), or a one-shot iterator (generator, iter(...)).  Every reader materialises first
+   ([self._rows = list(self._rows)] unless it is a list already), so what a collect returns must depend
+   neither on the kind of object the rows arrived in nor on the calls made before.  The model keeps
+   the two representations apart, so that this is a theorem (Props: the C10_frame theorems) rather than a
+   convention, and so that sequences of calls on one frame are cases of the correspondence. *)
+Section Frame.
+Variable A : Type.
+
+Inductive backing := KList | KTuple | KDeque | KIter.
+
+Inductive store :=
+| SEager (rows : list (rowobj A))                (* self._rows is a Python list *)
+| SLazy (k : backing) (rows : list (rowobj A)).  (* still the caller's object; KIter: the rows it has yet to yield *)
+
+Definition contents (s : store) : list (rowobj A) :=
+  match s with SEager r => r | SLazy _ r => r end.
+
+(* DataFrame(rows=..., schema=...): [self._rows = rows or []] - an empty tuple/deque is falsy and is
+   replaced by a new list; an iterator object is always truthy *)
+Definition frame_init (k : backing) (rows : list (rowobj A)) : store :=
+  match k, rows with
+  | KList, _ => SEager rows
+  | KIter, _ => SLazy KIter rows
+  | _, [] => SEager []
+  | _, _ :: _ => SLazy k rows
+  end.
+
+(* materialize(): list(self._rows) unless a list already *)
+Definition materialize (s : store) : store := SEager (contents s).
+
+Inductive fop :=
+| OpCollect (cols : list Z) (limit : option Z)   (* df.collect(cols, limit); names resolved by the harness *)
+| OpGetitem (cols : list Z)                      (* df[cols] = collect(cols, None) *)
+| OpCollectUnknown                               (* df.collect(<name not in the schema>): materialises, then ValueError from tuple.index *)
+| OpRowcount                                     (* df.rowcount / len(df) / df.shape[0] *)
+| OpMaterialize                                  (* df.materialize() *)
+| OpAppend (entry : list A).                     (* df.append(entry): self._rows.append(Row(entry)) *)
+
+Inductive fout :=
+| FCols (r : access (list (list A)))
+| FCount (n : nat)
+| FNone
+| FValueError
+| FAttributeError.                               (* tuple / generator / iterator have no .append *)
+
+(* self._rows.append exists: a list, or a deque not yet materialised *)
+Definition appendable (s : store) : bool :=
+  match s with
+  | SEager _ => true
+  | SLazy KDeque _ => true
+  | SLazy _ _ => false
+  end.
+
+Definition push (s : store) (r : rowobj A) : store :=
+  match s with
+  | SEager rows => SEager (rows ++ [r])
+  | SLazy k rows => SLazy k (rows ++ [r])
+  end.
+
+Definition step (s : store) (o : fop) : store * fout :=
+  match o with
+  | OpCollect cols limit => (materialize s, FCols (df_collect (contents s) cols limit))
+  | OpGetitem cols => (materialize s, FCols (df_collect (contents s) cols None))
+  | OpCollectUnknown => (materialize s, FValueError)
+  | OpRowcount => (materialize s, FCount (length (contents s)))
+  | OpMaterialize => (materialize s, FNone)
+  | OpAppend e => if appendable s then (push s (RTuple e), FNone) else (s, FAttributeError)
+  end.
+
+Fixpoint run (s : store) (ops : list fop) : list fout :=
+  match ops with
+  | [] => []
+  | o :: r => snd (step s o) :: run (fst (step s o)) r
+  end.
+
+Fixpoint state_after (s : store) (ops : list fop) : store :=
+  match ops with
+  | [] => s
+  | o :: r => state_after (fst (step s o)) r
+  end.
+
+(* the rows successfully appended by [ops], in order *)
+Fixpoint appended (s : store) (ops : list fop) : list (rowobj A) :=
+  match ops with
+  | [] => []
+  | o :: r => (match o with
+               | OpAppend e => if appendable s then [RTuple e] else []
+               | _ => []
+               end) ++ appended (fst (step s o)) r
+  end.
+
+(* an operation that only reads the frame *)
+Definition is_read (o : fop) : bool :=
+  match o with OpAppend _ => false | _ => true end.
+
+(* what a reading operation returns on a frame whose rows are [rows] - no state, no history *)
+Definition read_out (rows : list (rowobj A)) (o : fop) : fout :=
+  match o with
+  | OpCollect cols limit => FCols (df_collect rows cols limit)
+  | OpGetitem cols => FCols (df_collect rows cols None)
+  | OpCollectUnknown => FValueError
+  | OpRowcount => FCount (length rows)
+  | OpMaterialize => FNone
+  | OpAppend _ => FNone
+  end.
+
+End Frame.
+Arguments SEager {A}. Arguments SLazy {A}. Arguments contents {A}. Arguments frame_init {A}.
+Arguments materialize {A}. Arguments OpCollect {A}. Arguments OpGetitem {A}. Arguments OpCollectUnknown {A}.
+Arguments OpRowcount {A}. Arguments OpMaterialize {A}. Arguments OpAppend {A}.
+Arguments FCols {A}. Arguments FCount {A}. Arguments FNone {A}. Arguments FValueError {A}.
+Arguments FAttributeError {A}. Arguments appendable {A}. Arguments push {A}. Arguments step {A}.
+Arguments run {A}. Arguments state_after {A}. Arguments appended {A}. Arguments is_read {A}.
+Arguments read_out {A}.
+
 (* ---- extract_dict_columns (compiled.pyx:74-99) ---- *)
 Section Extract.
 Variable K V : Type.
@@ -272,3 +390,34 @@ Definition c10_width_check (c : list (option (list N)) * Z) : bool :=
   let '(vals, o) := c in Z.eqb (data_width vals) o.
 Definition c10_width_show (c : list (option (list N)) * Z) :=
   let '(vals, o) := c in data_width vals.
+
+(* ---- sequences of calls on one DataFrame (stream "dfseq") ---- *)
+Inductive fobs :=
+| QCols (o : obs)              (* a collect / __getitem__ step: what it returned or raised *)
+| QCount (n : Z)               (* rowcount / len / shape[0] *)
+| QNone                        (* returned None *)
+| QValueError
+| QAttributeError
+| QOtherExc.
+
+Definition fout_matches (m : fout Z) (o : fobs) : bool :=
+  match m, o with
+  | FCols a, QCols o' => obs_matches a o'
+  | FCount n, QCount z => Z.eqb (Z.of_nat n) z
+  | FNone, QNone => true
+  | FValueError, QValueError => true
+  | FAttributeError, QAttributeError => true
+  | _, _ => false
+  end.
+
+Fixpoint fouts_match (ms : list (fout Z)) (os : list fobs) : bool :=
+  match ms, os with
+  | [], [] => true
+  | m :: mr, o :: orr => fout_matches m o && fouts_match mr orr
+  | _, _ => false
+  end.
+
+Definition c10_dfseq_check (c : backing * list (rowobj Z) * list (fop Z) * list fobs) : bool :=
+  let '(k, rows, ops, os) := c in fouts_match (run (frame_init k rows) ops) os.
+Definition c10_dfseq_show (c : backing * list (rowobj Z) * list (fop Z) * list fobs) :=
+  let '(k, rows, ops, os) := c in run (frame_init k rows) ops.
